@@ -515,11 +515,12 @@ func writeEvidence(spec *Spec, tier string, seed uint64, st *stats, wall float64
 		rule += " (distinct count capped at " + strconv.Itoa(distinctCap) + " hashes: a lower bound)"
 	}
 	cov["rule"] = rule
-	samples := make([]interface{}, 0)
+	samples := make([]json.RawMessage, 0)
 	for _, s := range st.Samples {
-		var v interface{}
-		json.Unmarshal(s, &v)
-		samples = append(samples, v)
+		samples = append(samples, s)
+	}
+	if known == nil {
+		known = []string{}
 	}
 	cov["samples"] = samples
 	cov["simulated_runs"] = st.Runs
